@@ -22,10 +22,14 @@ SAN = ["-O1", "-g", "-fno-omit-frame-pointer", "-fsanitize=address,undefined",
 CONFIGS = {
     # name: (cxxflags, use x86-64 assembly sources)
     "asm": (REL, True),
-    "c64": (REL + ["-DDISABLE_ASM"], False),
+    # portable 64-bit words, built with the OTHER compiler the repository's Makefile provides for (g++), at another optimisation level:
+    # behaviour that depends on what one compiler happens to make of the source shows as a difference between the back ends
+    "c64": (["-O2", "-DDISABLE_ASM"], False, "g++"),
     # portable 32-bit words, with the ABI choices of the library's ARM targets that a host build can reproduce: plain char is
     # unsigned there (AAPCS), and the embedded tool-chain flags shorten enums
     "c32": (REL + ["-DDISABLE_ASM", "-U__SIZEOF_INT128__", "-funsigned-char", "-fshort-enums"], False),
+    # unoptimised build (debug / coverage builds): nothing is inlined, so every inline function is emitted and resolved by the linker
+    "o0": (["-O0", "-DDISABLE_ASM"], False),
     "san-asm": (SAN, True),
     "san-c64": (SAN + ["-DDISABLE_ASM"], False),
     "san-c32": (SAN + ["-DDISABLE_ASM", "-U__SIZEOF_INT128__", "-funsigned-char", "-fshort-enums"], False),
@@ -45,6 +49,11 @@ class BuildError(Exception):
         self.kind = kind   # 'library' or 'harness'
         self.msg = msg
         self.config = config
+
+
+def compiler(config):
+    c = CONFIGS[config]
+    return c[2] if len(c) > 2 else CXX
 
 
 def lib_sources(use_asm):
@@ -111,7 +120,8 @@ def config_dir(config):
 
 def build(config, objects_only=False):
     """Returns the path of libjedi.so for this configuration (building it if needed)."""
-    flags, use_asm = CONFIGS[config]
+    flags, use_asm = CONFIGS[config][:2]
+    cxx = compiler(config)
     out = config_dir(config)
     os.makedirs(out, exist_ok=True)
     so = os.path.join(out, "libjedi.so")
@@ -133,7 +143,7 @@ def build(config, objects_only=False):
             for src in cpp:
                 o = os.path.join(out, "lib_" + os.path.relpath(src, REPO).replace("/", "_")[:-4] + ".o")
                 objs.append(o)
-                jobs.append(([CXX] + BASE + flags + inc + ["-c", src, "-o", o], "library"))
+                jobs.append(([cxx] + BASE + flags + inc + ["-c", src, "-o", o], "library"))
             for src in asm:
                 o = os.path.join(out, "lib_" + os.path.relpath(src, REPO).replace("/", "_")[:-2] + ".o")
                 objs.append(o)
@@ -143,7 +153,7 @@ def build(config, objects_only=False):
                 futs = [ex.submit(_run, c, k) for c, k in jobs]
                 shim_f = None
                 if not objects_only:
-                    shim_f = ex.submit(_run, [CXX] + BASE + flags + inc + ["-fvisibility=default", "-c", os.path.join(VERIF, "harness", "shim.cpp"), "-o", shim_o], "harness")
+                    shim_f = ex.submit(_run, [cxx] + BASE + flags + inc + ["-fvisibility=default", "-c", os.path.join(VERIF, "harness", "shim.cpp"), "-o", shim_o], "harness")
                 for f in futs:
                     f.result()          # library errors first
                 if shim_f:
@@ -151,7 +161,7 @@ def build(config, objects_only=False):
             with open(os.path.join(out, "objects.txt"), "w") as fh:
                 fh.write("\n".join(objs) + "\n")
             if not objects_only:
-                link = [CXX, "-shared", "-o", so] + objs + [shim_o, "-Wl,-Bsymbolic,-z,relro,-z,now", "-Wl,-z,noexecstack"]
+                link = [cxx, "-shared", "-o", so] + objs + [shim_o, "-Wl,-Bsymbolic,-z,relro,-z,now", "-Wl,-z,noexecstack"]
                 if "-fsanitize=address,undefined" in flags:
                     link += ["-fsanitize=address,undefined", "-shared-libasan"]
                 if "-fsanitize=thread" in flags:
@@ -171,7 +181,7 @@ def build(config, objects_only=False):
 def build_exe(config, name, sources, extra_flags=(), link_lib=True, extra_link=(), with_shim=False):
     """Builds a standalone harness executable against the objects of a configuration."""
     build(config)
-    flags, _ = CONFIGS[config]
+    flags = CONFIGS[config][0]
     out = config_dir(config)
     exe = os.path.join(out, name)
     stamp = exe + ".ok"
@@ -182,7 +192,7 @@ def build_exe(config, name, sources, extra_flags=(), link_lib=True, extra_link=(
         objs = open(os.path.join(out, "objects.txt")).read().split() if link_lib else []
         if with_shim:
             objs.append(os.path.join(out, "shim.o"))
-        cmd = [CXX] + BASE + flags + list(extra_flags) + ["-I", os.path.join(REPO, "include"), "-I", os.path.join(VERIF, "harness")]
+        cmd = [compiler(config)] + BASE + flags + list(extra_flags) + ["-I", os.path.join(REPO, "include"), "-I", os.path.join(VERIF, "harness")]
         cmd += [os.path.join(VERIF, "harness", s) for s in sources] + objs + ["-o", exe, "-lpthread"] + list(extra_link)
         _run(cmd, "harness")
         open(stamp, "w").close()
